@@ -441,9 +441,9 @@ class HistoryGen:
 
     def mk_op(self, unnamed_bias=0.4) -> List[Any]:
         rng = self.rng
-        cls = rng.choice([0, 0, 0, 0, 1, 2])
+        cls = rng.choice([0, 0, 0, 0, 0, 1, 2])
         key = None if rng.random() < unnamed_bias else rng.choice(ID_POOL)
-        return ["mk", "ref", key, rng.choice(SEMS), cls, rng.choice([0, 0, 0, 1])]
+        return ["mk", "ref", key, rng.choice(SEMS + [None, None]), cls, rng.choice([0, 0, 0, 0, 1])]
 
     def setup(self) -> List[List[Any]]:
         rng = self.rng
@@ -459,8 +459,8 @@ class HistoryGen:
         kind = rng.choice(self.NS_KINDS)
         cfg = None
         if kind == "sml":
-            cls = rng.choice([0, 0, 0, 0, 1, 2, 4])
-            cfg = [cls, rng.choice([None, None, None, 1]), rng.choice([0, 0, 0, 1]) if cls <= 1 else rng.choice([None, None, 0])]
+            cls = rng.choice([0, 0, 0, 0, 0, 0, 1, 2, 4])
+            cfg = [cls, rng.choice([None, None, None, None, 1]), rng.choice([0, 0, 0, 0, 1]) if cls <= 1 else rng.choice([None, None, 0])]
             if rng.random() < 0.03:
                 cfg[2] = None
         items = []
@@ -589,8 +589,14 @@ class HistoryGen:
             return rng.choice(pool) if pool else 0
 
         def pick_member(bias):
-            if members and rng.random() < bias:
+            q = rng.random()
+            if members and q < bias:
                 return rng.choice(members)
+            if members and q < bias + 0.15:   # a look-alike: not a member, but carries a member's key
+                mkeys = {getattr(w.elems[h], ATTR[kd]) for h in members}
+                alike = [h for h in pool if h not in members and getattr(w.elems[h], ATTR[kd]) in mkeys]
+                if alike:
+                    return rng.choice(alike)
             return rng.choice(pool) if pool else 0
 
         def idx():
@@ -602,12 +608,19 @@ class HistoryGen:
                 return rng.choice([None, None, 0, 1, 1, 2, 3, -1, -2, 5, -7])
             return [b(), b(), rng.choice([None, None, None, None, 1, 1, 2, -1, -2, 0])]
 
+        if ordered and cfg is not None and cfg[0] <= 2 and rng.random() < 0.25:
+            fit = [h for h in pool if getattr(w.elems[h], "parent", None) is None and w.elems[h].id_short is None
+                   and self.meta[h][0] == cfg[0]]
+            if len(fit) < 2:
+                return ["mk", "ref", None, rng.choice([None, None, cfg[1], 1]), cfg[0], cfg[2] if cfg[2] is not None else 0]
         if ordered:
             kinds = ["add", "add", "append", "append", "insert", "insert", "insert", "setItem", "setItem", "setSlice", "setSlice",
                      "setSlice", "delItem", "delSlice", "popAt", "pop", "remove", "removeKey", "discard", "extend", "extend", "clear",
                      "setValue"]
-            if len(s) < 2:
-                kinds += ["add", "append", "insert", "extend", "extend"]
+            if len(s) < 3:     # keep lists populated: positional operations need something to act on
+                kinds = ["add", "append", "insert", "insert", "extend", "extend", "setSlice"] * 3 + kinds
+            elif len(s) < 6:
+                kinds += ["insert", "insert", "append", "setItem", "setItem", "popAt", "delItem", "setSlice"]
         else:
             kinds = ["add", "add", "add", "add", "add", "remove", "remove", "discard", "discard", "removeKey", "pop", "clear"]
             if len(s) < 2:
@@ -700,10 +713,45 @@ class Oracle:
         for n, o in enumerate(w.nss):
             if o is None:
                 continue
-            for s in o.namespace_element_sets:
+            for j, s in enumerate(o.namespace_element_sets):
                 ids = [id(x) for x in s]
-                ns.append(ids if hasattr(s, "__getitem__") else sorted(ids))
+                ns.append((n, j, ids if hasattr(s, "__getitem__") else sorted(ids)))
         return (el, ns)
+
+    def effect(self, op, res, before, after) -> Optional[str]:
+        """what a call that RETURNED must have done (MutableSet / MutableSequence contract of the collections; a renamed child
+        stays a child).  Returns a description of what is missing, or None."""
+        w = self.w
+        k = op[0]
+        mem_b = {(n, j): set(ids) for n, j, ids in before[1]}
+        mem_a = {(n, j): set(ids) for n, j, ids in after[1]}
+        if k in ("add", "append", "insert", "setItem"):
+            e = id(w.elems[op[-1]])
+            if e not in mem_a.get((op[1], op[2]), ()):
+                return f"{k} returned but element {op[-1]} is not in the collection"
+        elif k == "nsAdd":
+            e = id(w.elems[op[2]])
+            if not any(e in ids for (n, j), ids in mem_a.items() if n == op[1]):
+                return f"nsAdd returned but element {op[2]} is in no collection of namespace {op[1]}"
+        elif k in ("remove", "discard"):
+            e = id(w.elems[op[3]])
+            if e in mem_a.get((op[1], op[2]), ()):
+                return f"{k} returned but element {op[3]} is still in the collection"
+            if k == "discard" and e not in mem_b.get((op[1], op[2]), ()) and after != before:
+                return f"discard of non-member {op[3]} changed the namespace"
+        elif k in ("pop", "popAt") and len(res) > 1:
+            e = id(w.elems[res[1]])
+            if e in mem_a.get((op[1], op[2]), ()) or e not in mem_b.get((op[1], op[2]), ()):
+                return f"{k} returned element {res[1]}, which was not / still is in the collection"
+        elif k == "rename":
+            e = id(w.elems[op[1]])
+            for key in mem_b:
+                if (e in mem_b[key]) != (e in mem_a.get(key, ())):
+                    return (f"rename returned but element {op[1]} "
+                            f"{'left' if e in mem_b[key] else 'entered'} set {key[1]} of namespace {key[0]}")
+            if getattr(w.elems[op[1]], ATTR[w.kinds[op[1]]]) != op[2]:
+                return f"rename returned but the attribute of element {op[1]} is not the assigned value"
+        return None
 
     def check(self, op, res, before, hist) -> Optional[C.Failing]:
         w = self.w
@@ -794,10 +842,15 @@ class Oracle:
                 if getattr(el, "parent", None) is ns and id(el) not in members_of_ns:
                     return F("parent-without-membership", f"element {h} names namespace {n} as parent but no set of it contains "
                              "the element")
-        if raised and before is not None and k in SINGLE_OPS:
+        if before is not None and k in SINGLE_OPS:
             after = self.snapshot()
-            if after != before:
-                return F("not-atomic", f"{k} raised {res[1:]} but changed the namespace or the element")
+            if raised:
+                if after != before:
+                    return F("not-atomic", f"{k} raised {res[1:]} but changed the namespace or the element")
+            else:
+                miss = self.effect(op, res, before, after)
+                if miss:
+                    return F("effect", miss)
         return None
 
     @staticmethod
